@@ -6,7 +6,9 @@
      collision-unmodelled:{fields}  real hashes equal although the model's encodings differ
                                     (e.g. a field that is not hashed at all)
      drift:model-collides:{fields}  the model's encodings collide but the real hashes differ
-     inconsistent-provider-check    session-reuse check disagrees with hash equality *)
+     inconsistent-provider-check    session-reuse check disagrees with hash equality
+     encoding-mismatch              the real GetContentHashData bytes (e1, e2: decoded back into letters by
+                                    the harness) are not the model's Enc of the request *)
 EXTENDS ContentHash, IOUtils
 VARIABLE l
 Trace == ndJsonDeserialize(IOEnv.VERIF_TRACE)
@@ -17,6 +19,7 @@ Judge(r) == LET m == Enc(r.r1) = Enc(r.r2)
                 \cup Tag(r.equal /\ r.r1 # r.r2 /\ ~m, "collision-unmodelled:" \o c)
                 \cup Tag(~r.equal /\ m, "drift:model-collides:" \o c)
                 \cup Tag(r.equal # r.reuse, "inconsistent-provider-check")
+                \cup Tag(r.e1 # Enc(r.r1) \/ r.e2 # Enc(r.r2), "encoding-mismatch")
                 \cup Tag(r.same # (r.r1 = r.r2), "harness:instantiation-not-injective")
 Check(r) == \E bad \in {Judge(r)} :
             IF bad = {} THEN TRUE ELSE PrintT(<<"BAD", ToJson([id |-> r.id, classes |-> bad])>>)
